@@ -214,9 +214,9 @@ def model_spec(draw, cfg=None):
         if depth == 0:
             path = f"p{i}"
         elif depth == 1:
-            path = f"c{draw(st.integers(0, 1))}/p{i}"
+            path = f"cir{draw(st.integers(0, 1))}/p{i}"
         else:
-            path = f"c{draw(st.integers(0, 1))}/s{draw(st.integers(0, 1))}/p{i}"
+            path = f"cir{draw(st.integers(0, 1))}/sub{draw(st.integers(0, 1))}/p{i}"
         nodes.append([path, nt])
     if cfg.get("permute_nodes", True):
         nodes = list(draw(st.permutations(nodes)))
